@@ -34,7 +34,7 @@ CLAIMED = {
     tech=TECH + "; bit-vector loop invariant, pinned spec functions, lemma over contracts; bounded native comparison for ring construction and history independence"),
   'C07': dict(
     text="Every queue operation of the relay client (enqueue, enqueue_from_left, takeSomeFromQueue with a loop invariant, sendDatapoint, sendHighPriorityDatapoint, scheduleSend, the protocol's sendQueued / sendDatapointsNow, checkQueue, the two queue callbacks, destinationDown with a per-item re-injection contract) is verified from source against a whole-view contract over the queue as a sequence: arrivals append (self-metrics prepend), a send writes exactly the prefix of length min(batch, |queue|) and leaves the rest, a drop happens only without room below the hard limit and is counted, the limit is never exceeded by normal items, a removed destination re-injects every item in order; no AlreadyCalledError can occur.",
-    note="A-TWISTED-DEFER (Deferred/callLater semantics modelled); single reactor thread; the history statement (accepted == written ++ queue) is the induction over events of the per-operation view equations (meta-step); re-injection does not re-enter the drained queue (router no longer returns the destination); CarbonClientManager and FakeClientFactory are bounded only (replay/manager_native.py: the real manager, router and pipeline over event sequences), SSL set-up not under contract; connection-quality resets are under contract with an arbitrary monitor verdict; A-ENGINE, A-SMT",
+    note="A-TWISTED-DEFER (Deferred/callLater semantics modelled); single reactor thread; the history statement (accepted == written ++ queue) is the induction over events of the per-operation view equations (meta-step); re-injection does not re-enter the drained queue (router no longer returns the destination); CarbonClientManager.sendDatapoint / getFactories / getDestinations are under a discharged contract (pooled replicas off: the datapoint goes once to the factory of each destination the router names on this call, or to the no-destination buffer); startClient / stopClient and FakeClientFactory are bounded only (replay/manager_native.py: the real manager, router and pipeline over event sequences), SSL set-up not under contract; connection-quality resets are under contract with an arbitrary monitor verdict; A-ENGINE, A-SMT",
     tech=TECH + "; sequence-view contracts per operation, loop invariant for the batching generator"),
   'C08': dict(
     text="MetricBuffer.input is verified to append the value to the buffer of the aligned interval and nothing else; compute_value (both loops under invariants over a snapshot) to emit exactly once, for exactly the intervals that received data since their last emission, the uninterpreted rule function of exactly the values buffered for that interval, to delete only buffers that were already emitted (age rule, then the size trim that leaves at most MAX_AGGREGATION_INTERVALS + 2), and to release an idle series; AggregationProcessor.process to feed each matching rule's buffer exactly once with the same datapoint and to forward the unchanged datapoint exactly when FORWARD_ALL is on and no rule maps the metric to itself; get_aggregate_metric to return the uncached result whatever the cache holds (memo invariant, expiring entries included); avg / count against their definitions. The pattern-language clause is decided only by a bounded stand-in on the real build_regex.",
